@@ -39,9 +39,9 @@ PROPERTY = "C22"
 # pair / triple obligations draw whole test cases from this table (kind names, see _C22_lib.KINDS)
 TEMPLATES = (
     ("int3", "classify"),                         # 0 positive arm
-    ("new", "bump", "step"),                      # 1 "high"; without the bump the same lines but "low"
+    ("new", "bump", "step"),                      # 1 "high"; without the bump the same NUMBER of lines / outcomes, but "low"
     ("new", "step"),                              # 2 "low"
-    ("classify",),                                # 3 zero arm (literal argument)
+    ("size", "str", "size"),                      # 3 both outcomes of a one-line conditional: same lines, other branch outcomes
     ("int9", "check", "classify"),                # 4 check raises: the rest is never executed
     ("new", "step", "step"),                      # 5 "low" and "high"
     ("int3", "int3", "classify"),                 # 6 a redundant literal
@@ -49,13 +49,17 @@ TEMPLATES = (
     ("intm2", "classify"),                        # 8 negative arm
     ("int3", "classify", "intm2", "classify"),    # 9 subsumes 0 and 8
     ("int3", "check", "classify"),                # 10 check passes, classify reads its result
-    ("str", "size", "int3"),                      # 11 a trailing unused literal
+    ("classify",),                                # 11 zero arm (literal argument)
 )
 _T = tuple(tuple(L.K[name] for name in t) for t in TEMPLATES)
 
 
 def _kinds(n, k0, k1, k2, k3):
     return (k0, k1, k2, k3)[:n]
+
+
+def _suite(size, a, b, c):
+    return (_T[a], _T[b], _T[c])[:size]
 
 
 def _case(tests, am, cfg, aspects) -> bool:
@@ -66,48 +70,84 @@ def _case(tests, am, cfg, aspects) -> bool:
     return reach(L.untraced(L.run_case, tests, am, cfg // 2, cfg % 2, aspects))
 
 
+COV = (*L.COVERAGE, "statements")      # values, goals, truth + no foreign statement
+ASS = ("statements", "asserted")       # no foreign statement + asserted statements kept
+
+
+# ------------------------------------------------------------------------------------------------ regions of the recorded findings
+def _swap_prone(kinds) -> bool:
+    """A counter is created, bumped at least once and then stepped for the first time: ``step`` takes its
+    "high" arm, and its "low" arm (same number of lines and branch outcomes) once the bumps are gone."""
+    counter, bumped, stepped = False, False, False
+    for k in kinds:
+        name = L.KINDS[k]
+        if name == "new":
+            counter, bumped, stepped = True, False, False
+        elif name == "bump" and counter and not stepped:
+            bumped = True
+        elif name == "step" and counter:
+            if bumped and not stepped:
+                return True
+            stepped = True
+    return False
+
+
+def swap1(n, k0, k1, k2, k3) -> bool:
+    return _swap_prone(_kinds(*realize((n, k0, k1, k2, k3))))
+
+
+def swap3(size, a, b, c) -> bool:
+    return any(_swap_prone(t) for t in _suite(*realize((size, a, b, c))))
+
+
+def has_new1(n, k0, k1, k2, k3) -> bool:
+    return L.K["new"] in _kinds(*realize((n, k0, k1, k2, k3)))
+
+
 # ------------------------------------------------------------------------------------------------ one test case
-def h_cov_single(m: int, nmax: int, n: int, k0: int, k1: int, k2: int, k3: int, am: int, cfg: int) -> bool:
+def h_cov_single(m: int, nmax: int, amax: int, n: int, k0: int, k1: int, k2: int, k3: int, am: int, cfg: int) -> bool:
     """
     pre: 1 <= m <= 11 and 1 <= n <= nmax <= 4 and 0 <= k0 < m and 0 <= k1 < m and 0 <= k2 < m and 0 <= k3 < m
     pre: (n >= 2 or k1 == 0) and (n >= 3 or k2 == 0) and (n >= 4 or k3 == 0)
-    pre: 0 <= am <= 4 and 0 <= cfg <= 5
+    pre: 0 <= am <= amax <= 4 and 0 <= cfg <= 5
     post: _
     """
-    m, nmax, n, k0, k1, k2, k3, am, cfg = realize((m, nmax, n, k0, k1, k2, k3, am, cfg))
-    return _case((_kinds(n, k0, k1, k2, k3),), am, cfg, L.COVERAGE)
+    # k_i: statement kinds (_C22_lib.KINDS[:m]); am: which generated assertions survive (_C22_lib.add_assertions);
+    # cfg = 2 * strategy (CASE, SUITE, COMBINED) + direction (FORWARD, BACKWARD)
+    m, nmax, amax, n, k0, k1, k2, k3, am, cfg = realize((m, nmax, amax, n, k0, k1, k2, k3, am, cfg))
+    return _case((_kinds(n, k0, k1, k2, k3),), am, cfg, COV)
 
 
-def h_stm_single(m: int, nmax: int, n: int, k0: int, k1: int, k2: int, k3: int, am: int, cfg: int) -> bool:
+def h_ass_single(m: int, nmax: int, amax: int, n: int, k0: int, k1: int, k2: int, k3: int, am: int, cfg: int) -> bool:
     """
     pre: 1 <= m <= 11 and 1 <= n <= nmax <= 4 and 0 <= k0 < m and 0 <= k1 < m and 0 <= k2 < m and 0 <= k3 < m
     pre: (n >= 2 or k1 == 0) and (n >= 3 or k2 == 0) and (n >= 4 or k3 == 0)
-    pre: 0 <= am <= 4 and 0 <= cfg <= 5
+    pre: 1 <= am <= amax <= 4 and 0 <= cfg <= 5
     post: _
     """
-    m, nmax, n, k0, k1, k2, k3, am, cfg = realize((m, nmax, n, k0, k1, k2, k3, am, cfg))
-    return _case((_kinds(n, k0, k1, k2, k3),), am, cfg, L.STATEMENTS)
+    m, nmax, amax, n, k0, k1, k2, k3, am, cfg = realize((m, nmax, amax, n, k0, k1, k2, k3, am, cfg))
+    return _case((_kinds(n, k0, k1, k2, k3),), am, cfg, ASS)
 
 
 # ------------------------------------------------------------------------------------------------ two / three test cases
-def h_cov_suite(size: int, tmax: int, a: int, b: int, c: int, am: int, cfg: int) -> bool:
+def h_cov_suite(size: int, tmax: int, amax: int, a: int, b: int, c: int, am: int, cfg: int) -> bool:
     """
     pre: 2 <= size <= 3 and 1 <= tmax <= 12 and 0 <= a < tmax and 0 <= b < tmax and 0 <= c < tmax and (size == 3 or c == 0)
-    pre: 0 <= am <= 4 and 0 <= cfg <= 5
+    pre: 0 <= am <= amax <= 4 and 0 <= cfg <= 5
     post: _
     """
-    size, tmax, a, b, c, am, cfg = realize((size, tmax, a, b, c, am, cfg))
-    return _case((_T[a], _T[b], _T[c])[:size], am, cfg, L.COVERAGE)
+    size, tmax, amax, a, b, c, am, cfg = realize((size, tmax, amax, a, b, c, am, cfg))
+    return _case(_suite(size, a, b, c), am, cfg, COV)
 
 
-def h_stm_suite(size: int, tmax: int, a: int, b: int, c: int, am: int, cfg: int) -> bool:
+def h_ass_suite(size: int, tmax: int, amax: int, a: int, b: int, c: int, am: int, cfg: int) -> bool:
     """
     pre: 2 <= size <= 3 and 1 <= tmax <= 12 and 0 <= a < tmax and 0 <= b < tmax and 0 <= c < tmax and (size == 3 or c == 0)
-    pre: 0 <= am <= 4 and 0 <= cfg <= 5
+    pre: 1 <= am <= amax <= 4 and 0 <= cfg <= 5
     post: _
     """
-    size, tmax, a, b, c, am, cfg = realize((size, tmax, a, b, c, am, cfg))
-    return _case((_T[a], _T[b], _T[c])[:size], am, cfg, L.STATEMENTS)
+    size, tmax, amax, a, b, c, am, cfg = realize((size, tmax, amax, a, b, c, am, cfg))
+    return _case(_suite(size, a, b, c), am, cfg, ASS)
 
 
 META = {
@@ -125,9 +165,33 @@ def obligations(tier: str):
     from engines.runner import Chx
 
     q = tier == "quick"
-    T = 150 if q else 900
+    T = 300 if q else 1800
+    cfgs = list(range(6))
     obs = []
     if q:
-        for cfg in (0, 1, 4):
-            obs.append(Chx(f"cov_single_cfg{cfg}", h_cov_single, timeout=T, fix={"m": 8, "cfg": cfg}, split={"k0": list(range(8))}))
+        # one test case of <= 3 statements over the first 8 kinds
+        obs.append(Chx("cov_single", h_cov_single, timeout=T, fix={"m": 8, "nmax": 3, "amax": 1}, split={"cfg": [0, 1, 4], "am": [0, 1]}))
+        obs.append(Chx("ass_single", h_ass_single, timeout=T, fix={"m": 8, "nmax": 3, "amax": 4}, split={"cfg": [0, 1], "am": [1, 2, 4]}))
+        obs.append(Chx("ass_single", h_ass_single, timeout=T, fix={"m": 8, "nmax": 3, "amax": 4, "cfg": 2, "am": 3}))
+        obs.append(Chx("ass_single", h_ass_single, timeout=T, fix={"m": 8, "nmax": 2, "amax": 1, "cfg": 4}))
+        # two test cases out of the first 8 templates, three out of the first 4
+        obs.append(Chx("cov_pair", h_cov_suite, timeout=T, fix={"size": 2, "tmax": 8, "amax": 1}, split={"cfg": cfgs}))
+        obs.append(Chx("ass_pair", h_ass_suite, timeout=T, fix={"size": 2, "tmax": 8, "amax": 2}, split={"cfg": [0, 1]}))
+        obs.append(Chx("ass_pair", h_ass_suite, timeout=T, fix={"size": 2, "tmax": 4, "amax": 1}, split={"cfg": [2, 4]}))
+        obs.append(Chx("cov_triple", h_cov_suite, timeout=T, fix={"size": 3, "tmax": 4, "amax": 0}, split={"cfg": cfgs}))
+        obs.append(Chx("ass_triple", h_ass_suite, timeout=T, fix={"size": 3, "tmax": 4, "amax": 1}, split={"cfg": [0, 1]}))
+        return obs
+    # ---- thorough
+    obs.append(Chx("cov_single", h_cov_single, timeout=T, fix={"m": 11, "nmax": 3, "amax": 2}, split={"cfg": cfgs, "am": [0, 1, 2]}))
+    obs.append(Chx("cov_single", h_cov_single, timeout=T, fix={"m": 8, "nmax": 4, "amax": 0, "n": 4, "am": 0},
+                   split={"cfg": [0, 1, 4], "k0": list(range(8))}))
+    obs.append(Chx("ass_single", h_ass_single, timeout=T, fix={"m": 11, "nmax": 3, "amax": 4}, split={"cfg": [0, 1, 2, 3], "am": [1, 2, 3, 4]}))
+    obs.append(Chx("ass_single", h_ass_single, timeout=T, fix={"m": 8, "nmax": 4, "amax": 3, "n": 4},
+                   split={"cfg": [0, 1], "am": [1, 2, 3], "k0": list(range(8))}))
+    obs.append(Chx("ass_single", h_ass_single, timeout=T, fix={"m": 11, "nmax": 2, "amax": 4}, split={"cfg": [4, 5]}))
+    obs.append(Chx("cov_pair", h_cov_suite, timeout=T, fix={"size": 2, "tmax": 12, "amax": 2}, split={"cfg": cfgs}))
+    obs.append(Chx("ass_pair", h_ass_suite, timeout=T, fix={"size": 2, "tmax": 12, "amax": 4}, split={"cfg": [0, 1]}))
+    obs.append(Chx("ass_pair", h_ass_suite, timeout=T, fix={"size": 2, "tmax": 6, "amax": 1}, split={"cfg": [2, 3, 4, 5]}))
+    obs.append(Chx("cov_triple", h_cov_suite, timeout=T, fix={"size": 3, "tmax": 8, "amax": 1}, split={"cfg": cfgs, "am": [0, 1]}))
+    obs.append(Chx("ass_triple", h_ass_suite, timeout=T, fix={"size": 3, "tmax": 8, "amax": 3}, split={"cfg": [0, 1], "am": [1, 2, 3]}))
     return obs
